@@ -1,0 +1,58 @@
+//go:build verif && amd64
+// +build verif,amd64
+
+package native
+
+import (
+	"unsafe"
+
+	"github.com/bytedance/sonic/internal/native/avx2"
+	"github.com/bytedance/sonic/internal/native/sse"
+)
+
+// VerifDispatchRow: the current value of one dispatch variable and the value each SIMD package offers for it
+// (function variables are compared by their funcval pointer).
+type VerifDispatchRow struct {
+	Name           string
+	Cur, AVX2, SSE uintptr
+}
+
+func verifFn(p unsafe.Pointer) uintptr { return *(*uintptr)(p) }
+
+// VerifDispatch reports the state of the dispatch table (verification hook, build tag verif).
+func VerifDispatch() []VerifDispatchRow {
+	return []VerifDispatchRow{
+		{"S_f64toa", S_f64toa, avx2.S_f64toa, sse.S_f64toa},
+		{"S_f32toa", S_f32toa, avx2.S_f32toa, sse.S_f32toa},
+		{"S_i64toa", S_i64toa, avx2.S_i64toa, sse.S_i64toa},
+		{"S_u64toa", S_u64toa, avx2.S_u64toa, sse.S_u64toa},
+		{"S_lspace", S_lspace, avx2.S_lspace, sse.S_lspace},
+		{"S_quote", S_quote, avx2.S_quote, sse.S_quote},
+		{"S_unquote", S_unquote, avx2.S_unquote, sse.S_unquote},
+		{"S_value", S_value, avx2.S_value, sse.S_value},
+		{"S_vstring", S_vstring, avx2.S_vstring, sse.S_vstring},
+		{"S_vnumber", S_vnumber, avx2.S_vnumber, sse.S_vnumber},
+		{"S_vsigned", S_vsigned, avx2.S_vsigned, sse.S_vsigned},
+		{"S_vunsigned", S_vunsigned, avx2.S_vunsigned, sse.S_vunsigned},
+		{"S_skip_one", S_skip_one, avx2.S_skip_one, sse.S_skip_one},
+		{"S_skip_array", S_skip_array, avx2.S_skip_array, sse.S_skip_array},
+		{"S_skip_object", S_skip_object, avx2.S_skip_object, sse.S_skip_object},
+		{"S_skip_number", S_skip_number, avx2.S_skip_number, sse.S_skip_number},
+		{"S_get_by_path", S_get_by_path, avx2.S_get_by_path, sse.S_get_by_path},
+		{"__F64toa", verifFn(unsafe.Pointer(&__F64toa)), verifFn(unsafe.Pointer(&avx2.F_f64toa)), verifFn(unsafe.Pointer(&sse.F_f64toa))},
+		{"__F32toa", verifFn(unsafe.Pointer(&__F32toa)), verifFn(unsafe.Pointer(&avx2.F_f32toa)), verifFn(unsafe.Pointer(&sse.F_f32toa))},
+		{"__I64toa", verifFn(unsafe.Pointer(&__I64toa)), verifFn(unsafe.Pointer(&avx2.F_i64toa)), verifFn(unsafe.Pointer(&sse.F_i64toa))},
+		{"__U64toa", verifFn(unsafe.Pointer(&__U64toa)), verifFn(unsafe.Pointer(&avx2.F_u64toa)), verifFn(unsafe.Pointer(&sse.F_u64toa))},
+		{"__Quote", verifFn(unsafe.Pointer(&__Quote)), verifFn(unsafe.Pointer(&avx2.F_quote)), verifFn(unsafe.Pointer(&sse.F_quote))},
+		{"__Unquote", verifFn(unsafe.Pointer(&__Unquote)), verifFn(unsafe.Pointer(&avx2.F_unquote)), verifFn(unsafe.Pointer(&sse.F_unquote))},
+		{"__HTMLEscape", verifFn(unsafe.Pointer(&__HTMLEscape)), verifFn(unsafe.Pointer(&avx2.F_html_escape)), verifFn(unsafe.Pointer(&sse.F_html_escape))},
+		{"__Value", verifFn(unsafe.Pointer(&__Value)), verifFn(unsafe.Pointer(&avx2.F_value)), verifFn(unsafe.Pointer(&sse.F_value))},
+		{"__SkipOne", verifFn(unsafe.Pointer(&__SkipOne)), verifFn(unsafe.Pointer(&avx2.F_skip_one)), verifFn(unsafe.Pointer(&sse.F_skip_one))},
+		{"__SkipOneFast", verifFn(unsafe.Pointer(&__SkipOneFast)), verifFn(unsafe.Pointer(&avx2.F_skip_one_fast)), verifFn(unsafe.Pointer(&sse.F_skip_one_fast))},
+		{"__GetByPath", verifFn(unsafe.Pointer(&__GetByPath)), verifFn(unsafe.Pointer(&avx2.F_get_by_path)), verifFn(unsafe.Pointer(&sse.F_get_by_path))},
+		{"__ValidateOne", verifFn(unsafe.Pointer(&__ValidateOne)), verifFn(unsafe.Pointer(&avx2.F_validate_one)), verifFn(unsafe.Pointer(&sse.F_validate_one))},
+		{"__ValidateUTF8", verifFn(unsafe.Pointer(&__ValidateUTF8)), verifFn(unsafe.Pointer(&avx2.F_validate_utf8)), verifFn(unsafe.Pointer(&sse.F_validate_utf8))},
+		{"__ValidateUTF8Fast", verifFn(unsafe.Pointer(&__ValidateUTF8Fast)), verifFn(unsafe.Pointer(&avx2.F_validate_utf8_fast)), verifFn(unsafe.Pointer(&sse.F_validate_utf8_fast))},
+		{"__ParseWithPadding", verifFn(unsafe.Pointer(&__ParseWithPadding)), verifFn(unsafe.Pointer(&avx2.F_parse_with_padding)), verifFn(unsafe.Pointer(&sse.F_parse_with_padding))},
+	}
+}
